@@ -474,7 +474,7 @@ C05Fails(ev, V, W) ==
     [] OTHER -> {}
 
 C06Fails(ev, V, W) ==
-  IF ev.op = "RemoveTips" /\ SingleNodes(V) = {}
+  IF ev.op = "RemoveTips"
   THEN F_Prune(V, W, AsSet(ev.args.names), ev.args.revert)
   ELSE {}
 
